@@ -90,3 +90,82 @@ Theorem C17_inputs_documented_concat : forall env document toks p stack st,
   = Returned (concat (map (fun f => document f (accepted_object stack st)) (p_positional p))).
 Proof. exact inputs_documented_concat. Qed.
 Print Assumptions C17_inputs_documented_concat.
+
+(* Proofs/WholeProgram.v: every input is documented with the same settings object, whatever was documented before it; the per-input default prefix does not leak *)
+From Coq Require NArith Bool Arith.
+From CMinx Require Base.Str Base.PySem Model.Writer Model.Path Model.Naming Model.DocTypes
+     Model.Aggregator Model.Pipeline Model.Walk Model.Config Gen.ConfigData
+     Base.PyMainSem Base.PyWalkSem Gen.PyMainSource Gen.PyWalkSource
+     Proofs.WalkFacts Proofs.RunFacts Proofs.ConfigFacts Proofs.MainSourceMatch
+     Proofs.WalkSourceMatch Proofs.WholeProgram.
+Section WholeProgramCitations.
+Import NArith Bool Arith.
+Import Base.Str Base.PySem Model.Writer Model.Path Model.Naming Model.DocTypes
+     Model.Aggregator Model.Pipeline Model.Walk Model.Config Gen.ConfigData
+     Base.PyMainSem Base.PyWalkSem Gen.PyMainSource Gen.PyWalkSource
+     Proofs.WalkFacts Proofs.RunFacts Proofs.ConfigFacts Proofs.MainSourceMatch
+     Proofs.WalkSourceMatch Proofs.WholeProgram.
+
+Theorem C17_whole_program_run : forall resub pathspec_match world_of env toks,
+  worlds_ok env toks world_of = true ->
+  py_run (main env (source_document resub pathspec_match world_of) toks)
+  = match main_settings_of env toks with
+    | Some obj =>
+        finish (run_inputs (map (fun input => model_document resub pathspec_match world_of input obj)
+                                (inputs_of toks)))
+    | None => Raised (main_error env toks) []
+    end.
+Proof. exact WholeProgram.whole_program_run. Qed.
+
+Theorem C17_inputs_share_settings : forall resub pathspec_match world_of env toks obj,
+  main_settings_of env toks = Some obj -> worlds_ok env toks world_of = true ->
+  let W := wsettings_of obj in
+  let H := headers_of obj in
+  let D := document_bytes (flags_of obj) (trigger_of obj) (resub (opt_text obj k_strip_fn))
+                          (resub (opt_text obj k_strip_mac)) (resub (opt_text obj k_strip_mem)) H in
+  let PATS := patterns_of obj in
+  py_run (main env (source_document resub pathspec_match world_of) toks)
+  = finish (run_inputs (map (fun input =>
+      Walk.document W H D
+        (excl_with_output (pathspec_match PATS input) (pw_out_in_input (world_of input)))
+        (pw_base (world_of input)) (pw_kind (world_of input))) (inputs_of toks))).
+Proof. exact WholeProgram.inputs_share_settings. Qed.
+
+Theorem C17_input_sees_original_settings : forall resub pathspec_match world_of env toks obj pre f post,
+  main_settings_of env toks = Some obj -> worlds_ok env toks world_of = true ->
+  inputs_of toks = pre ++ f :: post ->
+  forallb run_ok (map (fun x => model_document resub pathspec_match world_of x obj) pre) = true ->
+  exists rest,
+    acts_of (py_run (main env (source_document resub pathspec_match world_of) toks))
+    = concat (map (fun x => model_document resub pathspec_match world_of x obj) pre)
+      ++ model_document resub pathspec_match world_of f obj ++ rest.
+Proof. exact WholeProgram.input_sees_original_settings. Qed.
+
+Theorem C17_prefix_default_does_not_leak : forall resub pathspec_match world_of env toks obj,
+  main_settings_of env toks = Some obj -> worlds_ok env toks world_of = true ->
+  ws_prefix (wsettings_of obj) = None ->
+  (forall input, In input (inputs_of toks) -> exists ch, pw_kind (world_of input) = KDir ch) ->
+  py_run (main env (source_document resub pathspec_match world_of) toks)
+  = finish (run_inputs (map (fun input =>
+      Walk.document (with_prefix (wsettings_of obj) (Some (pw_base (world_of input))))
+        (headers_of obj) (docfn_of resub obj)
+        (excl_with_output (excl_of pathspec_match obj input) (pw_out_in_input (world_of input)))
+        (pw_base (world_of input)) (pw_kind (world_of input))) (inputs_of toks))).
+Proof. exact WholeProgram.prefix_default_does_not_leak. Qed.
+
+Theorem C17_new_settings_differs_only_in_prefix : forall resub pathspec_match obj v input,
+  let obj' := py_set_key k_prefix v obj in
+  flags_of obj' = flags_of obj /\ trigger_of obj' = trigger_of obj /\ headers_of obj' = headers_of obj
+  /\ follow_of obj' = follow_of obj /\ patterns_of obj' = patterns_of obj
+  /\ docfn_of resub obj' = docfn_of resub obj
+  /\ excl_of pathspec_match obj' input = excl_of pathspec_match obj input
+  /\ wsettings_of obj'
+     = with_prefix (wsettings_of obj) (match v with CStr x => Some x | _ => None end).
+Proof. exact WholeProgram.new_settings_differs_only_in_prefix. Qed.
+
+End WholeProgramCitations.
+Print Assumptions C17_whole_program_run.
+Print Assumptions C17_inputs_share_settings.
+Print Assumptions C17_input_sees_original_settings.
+Print Assumptions C17_prefix_default_does_not_leak.
+Print Assumptions C17_new_settings_differs_only_in_prefix.
